@@ -6,6 +6,8 @@ import (
 	"encoding/json"
 	"os"
 	"sync"
+
+	ds "github.com/sealdice/dicescript"
 )
 
 type c11Job struct {
@@ -15,6 +17,8 @@ type c11Job struct {
 	Hi     string `json:"hi"`
 	Lo     string `json:"lo"`
 	Seeded bool   `json:"seeded"`
+	// ViaSeed: seed the VM the documented way (Context.Seed + Init) instead of assigning RandSrc
+	ViaSeed bool `json:"viaseed"`
 }
 
 type c11Res struct {
@@ -27,10 +31,25 @@ type c11Res struct {
 	Lo2    string `json:"lo2"`
 }
 
+func c11VM(cfg vmCfg, j c11Job) *ds.Context {
+	if j.Seeded && j.ViaSeed {
+		hi, lo := parseU(j.Hi), parseU(j.Lo)
+		var b [16]byte
+		for k := 0; k < 8; k++ {
+			b[k], b[8+k] = byte(hi>>(8*k)), byte(lo>>(8*k))
+		}
+		vm := &ds.Context{Seed: b[:]}
+		vm.Init()
+		cfg.apply(vm)
+		return vm
+	}
+	return newVM(cfg, parseU(j.Hi), parseU(j.Lo), j.Seeded)
+}
+
 func c11Run(j c11Job, src string) c11Res {
 	cfg := cfgFromFlags(j.Flags)
 	cfg.Lang = j.Lang
-	vm := newVM(cfg, parseU(j.Hi), parseU(j.Lo), j.Seeded)
+	vm := c11VM(cfg, j)
 	o := runScript(vm, src, true)
 	return c11Res{Ok: o.Ok, Err: o.Err, Panic: o.Panic, Str: o.Str, Detail: o.Detail, Hi2: o.Hi2, Lo2: o.Lo2}
 }
@@ -116,7 +135,7 @@ func init() {
 			}
 			cfgA := cfgFromFlags(jobs[k].Flags)
 			cfgA.Lang = jobs[k].Lang
-			vmA := newVM(cfgA, parseU(jobs[k].Hi), parseU(jobs[k].Lo), jobs[k].Seeded)
+			vmA := c11VM(cfgA, jobs[k])
 			var errA error
 			func() {
 				defer func() { _ = recover() }()
